@@ -356,9 +356,9 @@ def harnesses(tier):
                               sample_rate=0.02))
     if tier == "thorough":
         # (kde_nnls with n=5: z3 answers unknown on the non-linear interpolation queries within 60 s - not included)
-        for name, cfg, fn, real in (("pep[hist_nnls,n=3,bins=3]", dict(n=3, alg="hist_nnls", min_each=1, bins=3, grid=3), sym_pep, "pep"),
-                                    ("pep[kde_nnls,n=4,grid=4]", dict(n=4, alg="kde_nnls", min_each=2, bins=2, grid=4), sym_pep, "pep"),
-                                    ("qvalues[from_counts,n=3,bins=3]", dict(n=3, alg="from_counts", min_each=1, bins=3), sym_qvalues, "qvalues")):
+        # (hist_nnls with 3 bins and kde_nnls with a 4-point grid were tried: z3 decides them in 80-200 s on an idle
+        #  machine but answers 'unknown' under load - not included, a tier must not be inconclusive by chance)
+        for name, cfg, fn, real in (("qvalues[from_counts,n=3,bins=3]", dict(n=3, alg="from_counts", min_each=1, bins=3), sym_qvalues, "qvalues"),):
             hs.append(Harness(name, cfg, fn, real=real, functions=[P.peps_from_scores, Q.qvalues_from_scores], bounds=dict(N=cfg["n"], bins=cfg["bins"], grid=cfg.get("grid")), stubs=CONTRACTS,
                               assumptions=["as the smaller harnesses of the same kind"], sample_rate=0.01))
     return hs
